@@ -53,3 +53,54 @@ TRUSTED_BASE["C18"] = [
     "numpy unique/flatten in _compute_ious; networkx add_edge idempotent"]
 ASSUMPTIONS["C18"] = ["frame numbers are non-negative integers (points: integer first column and integer scale[0])",
                       "all frames of a label array have the same pixel count", "labels are non-negative"]
+
+# ---- session family: texts ---------------------------------------------------------------------
+_SESSION_TB = [
+    "networkx DiGraph: insertion-ordered adjacency, degree, has_edge, remove_node drops incident edges (modelled as such)",
+    "numpy fancy-index assignment / nonzero / unique on the label array (modelled as a flat list with set/get)",
+    "psygnal: emit calls each connected callback once, synchronously",
+]
+_RP_TB = ["skimage regionprops numerics (area = count*prod(spacing), centroid = mean*spacing are checked numerically per node; "
+          "perimeter / axes / circularity are opaque functions of (mask, spacing): a stored value is compared with a from-scratch "
+          "computation on the mask the model says was used)"]
+for _p in ("C01", "C02", "C03", "C04", "C05", "C06", "C07", "C08", "C09", "C10", "C11", "C20"):
+    TRUSTED_BASE[_p] = list(_SESSION_TB)
+    ENGINE[_p] = "lean-model+session-harness"
+for _p in ("C01", "C08", "C10"):
+    TRUSTED_BASE[_p] += _RP_TB
+
+_SESSION_ASSUME = [
+    "documented preconditions respected by the generators: a paint stroke lies in one frame, is grouped by the true previous labels, "
+    "has already been written by the caller, an existing label is painted only in its node's own frame; AddNode paints on background",
+    "track id / position features are never disabled (core features); a caller never passes an explicit lineage id to UserAddNode",
+    "sessions start from valid forests (imported graphs are forests with forward edges)",
+]
+for _p in ("C01", "C02", "C03", "C04", "C05", "C06", "C07", "C08", "C09", "C10", "C11", "C20"):
+    ASSUMPTIONS[_p] = list(_SESSION_ASSUME)
+ASSUMPTIONS["C08"] = _SESSION_ASSUME + ["enable_features(..., recompute=False) promises nothing about values (documented: 'assume values already exist')"]
+ASSUMPTIONS["C09"] = ASSUMPTIONS["C08"]
+ASSUMPTIONS["C11"] = _SESSION_ASSUME + ["'track lookups' = the per-id node lists compared as sets; the id maxima (next fresh ids) may stay raised after a rolled-back refusal"]
+
+_T = ("Lean 4 theorems (induction / invariants / refinement, no size bound) about a hand-written executable model; "
+      "model tied to the code by per-step differential correspondence through a compiled driver; independent Python oracle "
+      "on the real code as failing-input search")
+for _p in list(FAMILY):
+    TECHNIQUE.setdefault(_p, _T)
+
+LEVEL_TEXT.update({
+    "C01": "Per-primitive inverse laws and their lift to recorded action groups are Lean theorems about the model; every accepted edit of every generated session is undone and redone on the real code and on the model and the whole observable state compared.",
+    "C02": "The history algorithm (undo/redo stacks with pointer) is proved to refine the list+cursor timeline for every operation sequence and every action semantics satisfying the inverse law; the concrete sessions (incl. all sequences up to a length bound over composite forced edits) are compared with a Python timeline reference and with the model.",
+    "C03": "Forest preservation by each user action and the refusal rules are Lean theorems about the model of the user actions; degrees, time order and refusal classes are checked on the real code after every step.",
+    "C04": "Local track-id invariant ⇒ 'same id iff same unbranched segment' is a generic Lean theorem; preservation by the relabel walk/user actions as far as proved (see theorem list); independent partition oracle + frame clause on the real code after every step; exact ids compared with the model.",
+    "C05": "As C04 for lineage ids and connected components.",
+    "C06": "Bookkeeping invariant (lookups = nodes carrying the id, maxima bound ids) and the query/freshness specifications are Lean theorems about the model of TrackAnnotator; lookups, both queries for every id x time, and the three fresh-id sources are checked against a scan on the real code after every step.",
+    "C07": "Pointwise array theorems (set/get, pixels query, paint leaves array as painted, inverse restores bits); the whole array, orphan labels, empty nodes and get_pixels are checked on the real code after every step, 2D+t and 3D+t.",
+    "C08": "In the model a stored measurement is the mask it was computed from; theorems state that every operation that changes a node's mask recomputes that node and no other mask changes unnoticed; numerics checked against numpy / from-scratch skimage on the real code.",
+    "C09": "IoU as exact (intersection, union) counts; bulk = incremental = true overlap (also for skip edges) are Lean theorems; every edge checked against a numpy reference on the real code after every step and after bulk enabling.",
+    "C10": "Registry/active-flag bookkeeping, KeyError-before-change and protected-attribute refusal are Lean theorems about the model; random interleavings of enable/disable/edits/undo/redo on the real code with registry, value and frozen-value oracles.",
+    "C11": "User actions return the state also on failure, so 'a refused edit changes nothing' is a real statement: proved for validations before the first mutation, and for rollback paths via the inverse laws as far as proved; snapshot comparison around every raising call on the real code.",
+    "C20": "Refresh count/payload per operation is a Lean theorem about the session step function; a counting callback is connected to the real signal around every call.",
+    "C17": "For every fuzzy matcher that answers with one of its candidates and every duplicate-free column list: the inferred map's columns are a permutation of the input (Lean theorem about the model of the five matching steps); difflib answers are recorded from the real run and replayed into the model.",
+    "C18": "For every nearness relation and every frame dictionary: edges = exactly the near pairs in consecutive frames (Lean theorem about the loop as written); brute-force reference on random arrays / point lists with gaps and boundary distances.",
+})
+LEVEL_NOTE.update({p: "; ".join(TRUSTED_BASE_COMMON[2:] + TRUSTED_BASE.get(p, []))[:900] for p in FAMILY})
